@@ -7,7 +7,7 @@
 //
 //	time.Now/Since/Until/After/Tick/Sleep        -> vsched.*
 //	context.WithTimeout/WithCancel/WithDeadline  -> vsched.*
-//	sync.Mutex/RWMutex/WaitGroup                 -> vsched.*
+//	sync.Mutex/RWMutex/WaitGroup/Once            -> vsched.*
 //	rand.Shuffle                                 -> vsched.Shuffle
 //	go f(a...)                                   -> vsched.Go(func(){ f(a...) }) with eager evaluation
 //	ch <- v, <-ch, v,ok := <-ch, close(ch)       -> vsched.Send/Recv/Recv2/Close
@@ -231,7 +231,7 @@ func (r *rw) pkgSel(e ast.Expr) (string, string, bool) {
 var shimmed = map[string]map[string]string{
 	"time":      {"Now": "Now", "Since": "Since", "Until": "Until", "After": "After", "Tick": "Tick", "Sleep": "Sleep"},
 	"context":   {"WithTimeout": "WithTimeout", "WithCancel": "WithCancel", "WithDeadline": "WithDeadline"},
-	"sync":      {"Mutex": "Mutex", "RWMutex": "RWMutex", "WaitGroup": "WaitGroup"},
+	"sync":      {"Mutex": "Mutex", "RWMutex": "RWMutex", "WaitGroup": "WaitGroup", "Once": "Once"},
 	"math/rand": {"Shuffle": "Shuffle"},
 }
 
